@@ -31,6 +31,7 @@ pub trait TemplateRegistry: Sized {
         // register common filters
         tera.register_filter("escape_js", escape_js_filter);
         tera.register_filter("add_types_prefix", add_types_prefix_filter);
+        tera.register_filter("ts_key", ts_key_filter);
 
         // register registry specific templates
         Self::register_templates(&mut tera)?;
@@ -61,6 +62,48 @@ fn escape_js_filter(value: &Value, _args: &HashMap<String, Value>) -> tera::Resu
     } else {
         Err("escape_js filter expects a string".into())
     }
+}
+
+/// Whether `name` can be written as a bare property key / after a dot (an ECMAScript IdentifierName)
+fn is_identifier_name(name: &str) -> bool {
+    let mut chars = name.chars();
+    match chars.next() {
+        Some(first) if first.is_alphabetic() || first == '_' || first == '$' => {
+            chars.all(|c| c.is_alphanumeric() || c == '_' || c == '$')
+        }
+        _ => false,
+    }
+}
+
+/// Filter for property-key positions: identifier names are printed as they are, any other
+/// serialized name (kebab-case, names with spaces, ...) as a double-quoted string literal.
+/// Usage: `{{ field.serializedName | ts_key }}: ...` for a key,
+/// `params{{ name | ts_key(member=true) }}` for a member access (`.name` or `["na-me"]`).
+fn ts_key_filter(value: &Value, args: &HashMap<String, Value>) -> tera::Result<Value> {
+    let Some(name) = value.as_str() else {
+        return Err("ts_key filter expects a string".into());
+    };
+    let member = args
+        .get("member")
+        .and_then(|v| v.as_bool())
+        .unwrap_or(false);
+    let quoted = || {
+        format!(
+            "\"{}\"",
+            name.replace('\\', "\\\\")
+                .replace('"', "\\\"")
+                .replace('\n', "\\n")
+                .replace('\r', "\\r")
+                .replace('\t', "\\t")
+        )
+    };
+    let rendered = match (is_identifier_name(name), member) {
+        (true, false) => name.to_string(),
+        (true, true) => format!(".{}", name),
+        (false, false) => quoted(),
+        (false, true) => format!("[{}]", quoted()),
+    };
+    Ok(Value::String(rendered))
 }
 
 /// Filter to add "types." prefix to custom types for namespace imports
